@@ -81,6 +81,23 @@ RenderParseOK(in, out) ==
     /\ SameValues(in.texts, out.texts)
     /\ SameAttrs(in.attrs, out.attrs)
 
+\* (3b) the tokenizer's half of (3): for an element name that is not one of the ten raw-text /
+\* RCDATA names (names that merely extend one of them, or are prefixes of one, are ordinary), the
+\* bytes "<name>" EscapeString(s) "</name>" tokenize to the start tag, one text token carrying s
+\* (none when s is empty) and the end tag; names are lower-cased, a CR may arrive as LF.
+Lower(w) == [i \in 1..Len(w) |-> IF w[i] >= 65 /\ w[i] <= 90 THEN w[i] + 32 ELSE w[i]]
+RawTextNames == { <<105,102,114,97,109,101>>, <<110,111,101,109,98,101,100>>, <<110,111,102,114,97,109,101,115>>,
+                  <<110,111,115,99,114,105,112,116>>, <<112,108,97,105,110,116,101,120,116>>, <<115,99,114,105,112,116>>,
+                  <<115,116,121,108,101>>, <<116,101,120,116,97,114,101,97>>, <<116,105,116,108,101>>, <<120,109,112>> }
+Tag(ty, name) == [ty |-> ty, data |-> name, attrs |-> <<>>]
+EscTokOK(name, s, toks) ==
+    LET n == Lower(name) IN
+    \/ n \in RawTextNames           \* raw text / RCDATA: not judged here
+    \/ /\ s = <<>> /\ toks = <<Tag(2, n), Tag(3, n)>>
+    \/ /\ s # <<>> /\ Len(toks) = 3
+       /\ toks[1] = Tag(2, n) /\ toks[3] = Tag(3, n)
+       /\ toks[2].ty = 1 /\ toks[2].attrs = <<>> /\ toks[2].data \in {s, NL(s, 1)}
+
 \* (4) delivery independence.  The tokenizer's contract is over the byte stream: how the bytes
 \* arrive (one Read, bounded reads of 1/2/3/7/64 bytes, random short reads) and where its internal
 \* buffer happens to be refilled must not change the tokens.  w: the tokens (type, data, attributes)
